@@ -2,7 +2,7 @@
 from .. import core, extract
 from ..core import Suite, onat, b01, ohx
 
-LEAN_TARGETS = ['Uds.Props.C03', 'Uds.Props.C03Call', 'Uds.Tie.Tables']
+LEAN_TARGETS = ['Uds.Props.C03', 'Uds.Props.C03Call', 'Uds.Props.C03Hist', 'Uds.Tie.Tables']
 ASSUMPTIONS = [
     'positions of the request echoes inside each positive response are those of ISO 14229-1:2020 (written in harness/declib.py next to the reference encoder, '
     'and as statements over the wire bytes in Uds/Props/C03.lean)',
